@@ -333,8 +333,10 @@ Definition blocker_check_p (mr fc : bool) (b : blocker) : verdict :=
 Definition redirect_hits (b : blocker) : list rule := check_all matches (b_redirects b) pr [].
 Definition removeparam_hits (b : blocker) : list rule := check_all matches (b_removeparam b) pr [].
 Definition csp_hits (b : blocker) : list rule := check_all matches (b_csp b) pr (b_tags b).
+(* check_generic_hide: the generic_hide list receives the enabled tags (/repo b8d0ade; before that
+   fix it was probed with the empty set and a tagged generichide exception could never fire) *)
 Definition generic_hide_hit (b : blocker) : bool :=
-  match check matches (b_generic_hide b) pr [] with Some _ => true | None => false end.
+  match check matches (b_generic_hide b) pr (b_tags b) with Some _ => true | None => false end.
 
 (* ------------------------------------------------------------------ L0: rule-by-rule *)
 Definition act (tags : list str) (f : rule) : bool := matches f && tag_ok tags f.
@@ -364,7 +366,7 @@ Definition spec_redirect_hits (L : list rule) : list rule :=
   filter (act []) (filter is_redirect (live L)).
 Definition spec_removeparam_hits (L : list rule) : list rule := filter (act []) (of_cat CRemoveparam L).
 Definition spec_csp_hits (L : list rule) (tags : list str) : list rule := filter (act tags) (of_cat CCsp L).
-Definition spec_generic_hide (L : list rule) : bool := existsb (act []) (of_cat CGenericHide L).
+Definition spec_generic_hide (L : list rule) (tags : list str) : bool := existsb (act tags) (of_cat CGenericHide L).
 End Verdict.
 
 End WithHash.
